@@ -29,6 +29,10 @@ func init() {
 				"-tags", "llvm14")
 		}}
 	PropConfigs["C20"] = &PropConfig{ID: "C20", Modules: []Module{{Dir: ".", Patterns: []string{"./internal/crosscompile"}}}, Specs: []string{"common.smt2", "paths.smt2"}}
-	PropConfigs["C10"] = &PropConfig{ID: "C10", Modules: []Module{rtModule}, Specs: []string{"common.smt2"}}
+	PropConfigs["C10"] = &PropConfig{ID: "C10", Modules: []Module{rtModule}, Specs: []string{"common.smt2"}, Post: c10Schedules,
+		Undecided: []string{
+			"unbuffered hand-off, close racing with a hand-off and several receivers: bounded schedule exploration only (small scenarios, capped enumeration)",
+			"Select/TrySelect commitment beyond the probing-order contract; every liveness clause in general (the explored scenarios do check that nobody stays blocked)",
+		}}
 	PropConfigs["C05"] = &PropConfig{ID: "C05", Modules: []Module{rtModule}, Specs: []string{"common.smt2", "utf8.smt2"}}
 }
